@@ -9,10 +9,9 @@
 (*           run is rejected (RejectFirstAnswerDiff); a rejected run differs from the first run       *)
 (*           (RejectedRunsDiffer); equal normalised runs are both accepted (AcceptEqual).             *)
 (*                                                                                                   *)
-(* Consequences checked separately: equal normalised runs are both accepted (AcceptEqual); runs that  *)
-(* differ only in ids, or that are mirror images (sign flipped, values negated), have equal keys and  *)
-(* are therefore accepted iff their answers agree; a difference in the program's own output (report)  *)
-(* or in the request makes the histories different and nothing is demanded afterwards.               *)
+(* In particular runs that differ only in ids, or that are mirror images of each other (sign flipped,  *)
+(* values negated), have equal keys and are accepted iff their answers agree; a first difference in    *)
+(* the program's own output (report) or in the request itself makes the histories different.           *)
 EXTENDS Functional
 CONSTANTS MaxEv, FinalStates
 Ids  == {0, 7}      \* raw trial ids the real code may report (ignored by Functional)
@@ -91,8 +90,8 @@ RejectFirstAnswerDiff == (Cur = 2 /\ Diffs # {} /\ Request(A(First)) = Request(B
 RejectedRunsDiffer    == (Cur = 2 /\ rej) => Diffs # {}
 AcceptEqual   == (Cur = 2 /\ Diffs = {}) => ~rej
 FirstRunAlone == Cur = 1 => ~rej
-\* the memo never holds an id or an un-normalised value: its size is bounded by the answers of both runs
+\* at most one memo entry per logged answer
+MemoBound == Cardinality(DOMAIN memo) <= Len(log[1]) + Len(log[2])
 \* negative instance (FunctionalMC_rej.cfg): must be violated, i.e. the rejecting branch is reachable
 NeverRejects == ~rej
-MemoBound == Cardinality(DOMAIN memo) <= Len(log[1]) + Len(log[2])
 ===============================================================================
